@@ -127,14 +127,35 @@ macro_rules! construct_impl {
     };
 }
 
+macro_rules! shapes_of {
+    (true) => {
+        simcore::shapes::AllShapes
+    };
+    (false) => {
+        simcore::shapes::BasicShapes
+    };
+    (min) => {
+        simcore::shapes::MinShapes
+    };
+}
+macro_rules! is_core {
+    (true) => {
+        true
+    };
+    ($other:tt) => {
+        false
+    };
+}
+
 macro_rules! decls {
     (
+        list = $list:ident, with = $with:ident, twin = $twin:ident;
         $(
             #[nutype( $($attr:tt)* )]
             struct $name:ident ( $($inner:tt)+ );
             family = $fam:expr;
             validated = $val:tt;
-            core = $core:expr;
+            core = $core:tt;
             gen = $gen:expr;
             corpus = $corpus:expr;
         )*
@@ -145,7 +166,7 @@ macro_rules! decls {
         )*
 
         /// Plain serde-derived structs of the same names: what a document "carries".
-        pub mod twin {
+        pub mod $twin {
             use super::*;
             $(
                 #[derive(Serialize, Deserialize, Debug)]
@@ -157,7 +178,8 @@ macro_rules! decls {
             impl Decl for $name {
                 type Inner = $($inner)+;
                 type TwinInner = $($inner)+;
-                type Twin = twin::$name;
+                type Twin = $twin::$name;
+                type Shapes = shapes_of!($core);
                 const NAME: &'static str = stringify!($name);
                 const TEXT: &'static str = stringify!($($attr)*);
                 const FAMILY: &'static str = $fam;
@@ -178,7 +200,7 @@ macro_rules! decls {
                     i.clone()
                 }
                 fn twin_wrap(raw: Self::TwinInner) -> Self::Twin {
-                    twin::$name(raw)
+                    $twin::$name(raw)
                 }
                 fn twin_unwrap(t: Self::Twin) -> Self::TwinInner {
                     t.0
@@ -196,13 +218,13 @@ macro_rules! decls {
             }
         )*
 
-        pub const SIMPLE_DECLS: &[(&str, bool)] = &[ $( (stringify!($name), $core), )* ];
+        pub const $list: &[(&str, bool)] = &[ $( (stringify!($name), is_core!($core)), )* ];
 
-        fn with_simple<V: DeclVisitor>(idx: usize, v: V) -> V::Out {
+        pub(crate) fn $with<V: DeclVisitor>(idx: usize, v: V) -> V::Out {
             let mut i = 0usize;
             $(
                 if idx == i {
-                    return v.visit::<$name>($core);
+                    return v.visit::<$name>(is_core!($core));
                 }
                 i += 1;
             )*
@@ -222,6 +244,7 @@ fn s(x: &str) -> String {
 }
 
 decls! {
+    list = SIMPLE_DECLS, with = with_simple, twin = twin;
     // ------------------------------------------------------------------ integers
     #[nutype(validate(greater_or_equal = 13, less_or_equal = 19), derive(Debug, Clone, PartialEq, Eq, PartialOrd, Ord, Serialize, Deserialize))]
     struct Teen(u8);
@@ -566,6 +589,7 @@ impl Decl for NonEmptyVec<i16> {
     type Inner = Vec<i16>;
     type TwinInner = Vec<i16>;
     type Twin = twin_special::NonEmptyVec<i16>;
+    type Shapes = simcore::shapes::AllShapes;
     const NAME: &'static str = "NonEmptyVec";
     const TEXT: &'static str = "validate(predicate = |v| !v.is_empty()), derive(Debug, Clone, Serialize, Deserialize)  // struct NonEmptyVec<T>(Vec<T>), T = i16";
     const FAMILY: &'static str = "other";
@@ -607,6 +631,7 @@ impl Decl for Sorted<String> {
     type Inner = Vec<String>;
     type TwinInner = Vec<String>;
     type Twin = twin_special::Sorted<String>;
+    type Shapes = simcore::shapes::BasicShapes;
     const NAME: &'static str = "Sorted";
     const TEXT: &'static str = "sanitize(with = |mut v| { v.sort(); v }), derive(Debug, Clone, Serialize, Deserialize)  // struct Sorted<T: Ord>(Vec<T>), T = String";
     const FAMILY: &'static str = "other";
@@ -648,6 +673,7 @@ impl Decl for CowStr<'static> {
     type Inner = Cow<'static, str>;
     type TwinInner = String;
     type Twin = twin_special::CowStr<'static>;
+    type Shapes = simcore::shapes::BasicShapes;
     const NAME: &'static str = "CowStr";
     const TEXT: &'static str = "validate(predicate = |v| v.len() < 6), derive(Debug, Clone, Serialize, Deserialize)  // struct CowStr<'a>(Cow<'a, str>)";
     const FAMILY: &'static str = "other";
@@ -688,6 +714,7 @@ impl Decl for NotFifteen {
     type Inner = TeenRef;
     type TwinInner = twin_special::TeenRef;
     type Twin = twin_special::NotFifteen;
+    type Shapes = simcore::shapes::AllShapes;
     const NAME: &'static str = "NotFifteen";
     const TEXT: &'static str = "validate(predicate = |t| *t.as_ref() != 15), derive(Debug, Clone, Serialize, Deserialize)  // struct NotFifteen(TeenRef), TeenRef = nutype u8 in 13..=19";
     const FAMILY: &'static str = "other";
@@ -728,6 +755,7 @@ impl Decl for Distinct<u8, u8> {
     type Inner = (u8, u8);
     type TwinInner = (u8, u8);
     type Twin = twin_special::Distinct<u8, u8>;
+    type Shapes = simcore::shapes::BasicShapes;
     const NAME: &'static str = "Distinct";
     const TEXT: &'static str = "sanitize(with = |p| p), validate(predicate = |p| p.0 != p.1), derive(Debug, Clone, Serialize, Deserialize)  // struct Distinct<A: PartialEq<B>, B>((A, B)), A = B = u8";
     const FAMILY: &'static str = "other";
@@ -767,16 +795,26 @@ impl Decl for Distinct<u8, u8> {
 
 pub const SPECIAL_DECLS: &[(&str, bool)] = &[("NonEmptyVec", true), ("Sorted", false), ("CowStr", false), ("NotFifteen", true), ("Distinct", false)];
 
+mod matrix;
+pub use matrix::MATRIX_DECLS;
+
+fn table(idx: usize) -> (&'static str, bool) {
+    let (a, b) = (SIMPLE_DECLS.len(), SPECIAL_DECLS.len());
+    if idx < a {
+        SIMPLE_DECLS[idx]
+    } else if idx < a + b {
+        SPECIAL_DECLS[idx - a]
+    } else {
+        MATRIX_DECLS[idx - a - b]
+    }
+}
+
 pub fn n_decls() -> usize {
-    SIMPLE_DECLS.len() + SPECIAL_DECLS.len()
+    SIMPLE_DECLS.len() + SPECIAL_DECLS.len() + MATRIX_DECLS.len()
 }
 
 pub fn decl_name(idx: usize) -> &'static str {
-    if idx < SIMPLE_DECLS.len() {
-        SIMPLE_DECLS[idx].0
-    } else {
-        SPECIAL_DECLS[idx - SIMPLE_DECLS.len()].0
-    }
+    table(idx).0
 }
 
 pub fn decl_index(name: &str) -> Option<usize> {
@@ -784,19 +822,18 @@ pub fn decl_index(name: &str) -> Option<usize> {
 }
 
 pub fn decl_is_core(idx: usize) -> bool {
-    if idx < SIMPLE_DECLS.len() {
-        SIMPLE_DECLS[idx].1
-    } else {
-        SPECIAL_DECLS[idx - SIMPLE_DECLS.len()].1
-    }
+    table(idx).1
 }
 
 pub fn with_decl<V: DeclVisitor>(idx: usize, v: V) -> V::Out {
-    let n = SIMPLE_DECLS.len();
-    if idx < n {
+    let (a, b) = (SIMPLE_DECLS.len(), SPECIAL_DECLS.len());
+    if idx < a {
         return with_simple(idx, v);
     }
-    match idx - n {
+    if idx >= a + b {
+        return matrix::with_matrix(idx - a - b, v);
+    }
+    match idx - a {
         0 => v.visit::<NonEmptyVec<i16>>(true),
         1 => v.visit::<Sorted<String>>(false),
         2 => v.visit::<CowStr<'static>>(false),
